@@ -373,3 +373,40 @@ func TestReplayRepeatedCompositeFieldLocations(t *testing.T) {
 		}
 	}
 }
+
+// D11: a reused postings list that held a general term and is then looked up
+// through the (empty) dictionary of an unknown field has postings != nil but
+// no owning segment; iterating it must yield nothing, not panic.
+func TestReplayReusedListUnknownFieldIterator(t *testing.T) {
+	s, _, err := newWithChunkMode([]segment.Document{
+		&FakeDocument{NewFakeField("_id", "a", true, false, false), NewFakeField("name", "wow cool", true, true, false)},
+		&FakeDocument{NewFakeField("_id", "b", true, false, false), NewFakeField("name", "wow", true, true, false)},
+	}, encodeNorm, 1024)
+	if err != nil {
+		t.Fatal(err)
+	}
+	seg := s.(*Segment)
+	d, _ := seg.Dictionary("name")
+	pl, err := d.PostingsList([]byte("wow"), nil, nil)
+	if err != nil {
+		t.Fatal(err)
+	}
+	unknown, _ := seg.Dictionary("nope")
+	pl2, err := unknown.PostingsList([]byte("x"), nil, pl)
+	if err != nil {
+		t.Fatal(err)
+	}
+	defer func() {
+		if r := recover(); r != nil {
+			t.Fatalf("Iterator on the empty postings list of an unknown field panicked: %v", r)
+		}
+	}()
+	it, err := pl2.Iterator(true, true, true, nil)
+	if err != nil {
+		t.Fatal(err)
+	}
+	p, err := it.Next()
+	if err != nil || p != nil {
+		t.Fatalf("expected no posting, got %v %v", p, err)
+	}
+}
